@@ -144,6 +144,13 @@ def run(ctx):
            "ＡＢ", "0x" + "0" * 4095, "0x" + "f" * 8191, "+00", "-00", "0x+0", "00 0x", "0x0 x00", "x", "0x0X", "#00", "0h00", "\\x00"]
     for t in mal:
         cases.append((t, None, "must", "malformed/listed"))
+    # several hex strings one after another (two `hex encode` outputs concatenated, one per line / per word, each with its own
+    # prefix or not): the digit stream contains an "x" or two prefixes, so this is not ONE hex string
+    for sep in ("\n", "\r\n", " ", "\t", "\n\n", " \n "):
+        for parts in (["0x12", "0x34"], ["12", "0x34"], ["0x12", "0x34", "0x56"], ["0xab", "0xcd", ""], ["0x", "0x12"], ["0x12", "0x"], ["", "0x12", "0x34"],
+                      ["0x" + rbytes(rng, 40).hex(), "0x" + rbytes(rng, 40).hex()], ["00", "0X11"], ["0x00", "0x1"], ["0x12", "x34"]):
+            cases.append((sep.join(parts), None, "must", "malformed/several-hex-strings"))
+            cases.append((sep.join(parts) + "\n", None, "must", "malformed/several-hex-strings"))
     # the first defect comes late: after 4096, 8192, ... well-formed bytes (nothing may have been written by then)
     for nb in (2047, 2048, 4095, 4096, 4097, 8192, 12288, 16384, 65536, rng.randrange(4097, 70000)):
         h = rbytes(rng, nb).hex()
